@@ -305,6 +305,32 @@ class G2:
         v = worst(verdicts)
         return (v[0], (why + "; " if why else "") + v[1], v[2] or after)
 
+    def _keyed_by_map_key(self, call):
+        """`<map>.iter()[.filter(..)].min_by_key(|(k, _)| **k)`: the ordering key is the key of the map being iterated"""
+        cl = peel(call["args"][0])
+        if cl.get("k") != "Closure" or len(cl.get("params", [])) != 1:
+            return False
+        tp = cl["params"][0]
+        while tp.get("k") in ("PRef", "PDeref"):
+            tp = tp["pat"]
+        if tp.get("k") != "PTuple" or len(tp.get("pats", [])) != 2:
+            return False
+        knames = {b_["name"] for b_ in walk(tp["pats"][0]) if b_.get("k") == "PBinding"}
+        vnames = {b_["name"] for b_ in walk(tp["pats"][1]) if b_.get("k") == "PBinding"}
+        body = peel(cl["body"])
+        while body.get("k") in ("Unary", "AddrOf") or (body.get("k") == "MethodCall" and body["name"] in ("clone", "copied") and not body["args"]):
+            body = peel(body.get("a") or body.get("e") or body.get("recv"))
+        if not (body.get("k") == "Path" and body.get("res") in knames) or vnames & {y.get("res") for y in walk(cl["body"], pats=False) if y.get("k") == "Path"}:
+            return False
+        # the chain must come straight from a map (filter / inspect in between keep elements intact)
+        r = peel(call["recv"])
+        while r.get("k") == "MethodCall" and r["name"] in ("filter", "inspect", "by_ref", "peekable"):
+            r = peel(r["recv"])
+        if r.get("k") == "MethodCall" and r["name"] in ("iter", "iter_mut", "into_iter"):
+            ty = strip_ty(peel(r["recv"]).get("aty") or peel(r["recv"]).get("ty") or "")
+            return bool(re.match(r"^(std::collections::hash::map::HashMap|std::collections::HashMap|alloc::collections::btree::map::BTreeMap)", ty))
+        return False
+
     def _worklist_item_state(self, pm, pop, lp):
         """(visited test, extra binding) if the popped item is a tuple/struct of several bindings and the loop's visited test names only one of them"""
         x = pop
@@ -386,6 +412,8 @@ class G2:
                     if gp.get("k") == "MethodCall" and gp["recv"] is par and gp["name"] in ("is_some", "is_none"):
                         return ("SAFE", "`.next().is_some()` only tests existence", None)
                     return ("UNSAFE", "`.next()` selects whichever element the hash order yields first", par)
+                if m in ("min_by_key", "max_by_key") and par["args"] and self._keyed_by_map_key(par):
+                    return ("SAFE", f".{m}() by the map's own key: keys are pairwise distinct, so there is no tie for the hash order to break", None)
                 if m in POSITIONAL or (state == "seq" and m in ("get", "first", "last", "swap_remove", "remove", "split_first")):
                     return ("UNSAFE", f".{m}() depends on the position of elements in the hash order", par)
                 if m in ("join", "concat", "to_string") or (m == "serialize" and state == "seq"):
